@@ -5,7 +5,6 @@ BOUNDS = {
     'thorough': 'as quick with N = 0..8 and T in {int, unsigned char, long long, 12-byte struct} (element-copy check of subspan: int and unsigned char only)',
 }
 ASSUMPTIONS = ['C19/span: documented preconditions assumed: first/last count <= size(); subspan offset <= size() and (count == dynamic_extent or count <= size() - offset); operator[] idx < size(); front/back on non-empty',
-               'C19/span: etl::as_bytes/as_writable_bytes of a static-extent span do not compile on the pinned tree (defect reported in evidence notes); they are exercised for dynamic extent only',
                'C19/span: pointer identity is compared inside one exact-size block; forming (not dereferencing) the one-past-the-end pointer is allowed']
 ESZ = {'int': 4, 'unsigned char': 1, 'long long': 8, 'S12': 12}
 ALWAYS = ['observers', 'first_dyn', 'last_dyn', 'subspan_dyn', 'subspan_dyn1', 'subspan_copy', 'first_st', 'last_st', 'subspan_st', 'ctor']
@@ -21,7 +20,7 @@ def queries(tier, prop='C19'):
     for t in elts:
         for n in range(nmax + 1):
             for se in (0, 1):
-                es = ALWAYS + (NONEMPTY if n else []) + ([] if se else ['bytes'])
+                es = ALWAYS + (NONEMPTY if n else []) + ['bytes']
                 if se == 0: es = es + ARRAY + (ARRAY_NONEMPTY if n else [])
                 if ESZ[t] > 4:   # the element-by-element copy check with a symbolic offset does not finish in 120 s for 8/12-byte elements (thorough run): int and unsigned char only
                     es = [e for e in es if e != 'subspan_copy']
